@@ -458,11 +458,13 @@ package keeper
 //@ ensures[def] (err == nil) <==> validAtt(message, old(attestation), publicKeys, signatureThreshold)
 //@ assigns attestation
 
+// The store iterator yields the prefix range in key order (L0); the list built from it is st.attList.
 //@ func (Keeper) GetAllAttesters(ctx) (list)
 //@ layer L2
-//@ trusted
 //@ ensures[all] list == stAttesters()
 //@ modifies none
+//@ loop 0 invariant[len]   uint64(len(list)) == iterPos() && iterPos() <= st.nAtt
+//@ loop 0 invariant[elems] forall j: uint64 :: (j < uint64(len(list)) ==> list[j].Attester == st.attList[j]) && (j >= uint64(len(list)) ==> list[j].Attester == "")
 
 // ---- the one place outbound bytes are assembled
 
